@@ -1,6 +1,7 @@
 //! Correspondence harness: runs the real woodpile crates on case files and prints one JSON
 //! observation (a list of fields, each a list of numbers) per case.  See DESIGN.md section 4.2.
 mod util;
+mod hcobs_fam;
 mod readn;
 mod sdq;
 mod sod;
@@ -34,6 +35,7 @@ fn main() {
         }
         let obs: util::Obs = match family {
             "win" => win::run(line),
+            "hcobs" => hcobs_fam::run(line),
             "readn" => readn::run(line),
             "sdq" => sdq::run(line),
             "sod" => sod::run(line),
